@@ -467,8 +467,22 @@ func (fv *FV) typeFactsQ(t types.Type, term, alloc string) string {
 	switch types.Unalias(t).Underlying().(type) {
 	case *types.Pointer, *types.Map:
 		return and(sx("<=", "0", term), sx("<", term, alloc))
+	case *types.Slice:
+		return and(sx("<=", "0", sx("sl_base", term)), sx("<", sx("sl_base", term), alloc), sx("<=", "0", sx("sl_off", term)),
+			sx("<=", "0", sx("sl_len", term)), sx("<=", sx("sl_len", term), sx("sl_cap", term)))
 	case *types.Basic:
 		return fv.u.rangeFact(t, term)
+	case *types.Struct:
+		if !fv.u.isHeapStruct(t) {
+			s := fv.u.sortOf(t)
+			if dt := fv.u.dtOf(s); dt != nil {
+				var fs []string
+				for _, f := range dt.Fields {
+					fs = append(fs, fv.typeFactsQ(f.Ty, sx(sym(dt.Name+"_"+f.Name), term), alloc))
+				}
+				return and(fs...)
+			}
+		}
 	}
 	if _, ok := types.Unalias(t).(*types.TypeParam); ok {
 		return fv.u.rangeFact(t, term)
@@ -615,7 +629,7 @@ func (fv *FV) enterLoop(h *Block, in *State) *State {
 	var heapCells []string
 	for _, cell := range mod {
 		c := fv.havoc(st, cell)
-		if t, ok := fv.cellType[cell]; ok && !strings.HasPrefix(cell, "H!") {
+		if t, ok := fv.cellType[cell]; ok && t != nil && !strings.HasPrefix(cell, "H!") {
 			fv.assume(st, fv.typeFacts(t, c, st))
 		}
 		if strings.HasPrefix(cell, "H!") {
